@@ -244,10 +244,20 @@ def unit_embedded(st, name):
     perms = list(itertools.permutations(ops4)) if name == "ptk" else [tuple(ops4[i:] + ops4[:i]) for i in range(4)]
     probe = [first, last, "zzz", first.lower() + "x"]
     ref = None
+    # ... nor on an iteration that was started earlier and abandoned (next(iter(r)), a loop left by `break`, any(...))
+    perms = list(perms) + [("peek",) + tuple(pm) for pm in perms[:4]] + [("peek3", "peek") + tuple(perms[0])]
     for perm in perms:
         r2 = regs.registry_objects()[name]
         out = {}
         for op in perm:
+            if op == "peek":
+                next(iter(r2), None)
+                continue
+            if op == "peek3":
+                for i_, _k in enumerate(r2):
+                    if i_ >= 2:
+                        break
+                continue
             if op == "iter":
                 out["iter"] = sorted(r2)
             elif op == "len":
@@ -415,12 +425,15 @@ def op_orders(st, entries, backend, extensions, tmpdir):
     import shutil
     cand = sorted(set(e.rsplit(".", 1)[0] for e in entries if "." in e and not e.endswith("/")) | {"zzz", "sub/f", "x"})
     ref = None
-    for perm in itertools.permutations(["iter", "len", "get", "in"]):
+    base_perms = list(itertools.permutations(["iter", "len", "get", "in"]))
+    for perm in base_perms + [("peek",) + pm for pm in base_perms[:6]]:
         reg, f = make_registry(backend, entries, extensions, tmpdir)
         out = {}
         try:
             for op in perm:
-                if op == "iter":
+                if op == "peek":
+                    next(iter(reg), None)          # an iteration that is started and abandoned
+                elif op == "iter":
                     out["iter"] = sorted(reg)
                 elif op == "len":
                     out["len"] = len(reg)
